@@ -311,6 +311,10 @@ func Quiesce() int {
 // Yield (intrinsic): a scheduling point.
 func Yield() {}
 
+// PreemptAtGo (intrinsic): from now on every `go` statement is a scheduling point for the symbolic scheduler:
+// the new goroutine may run before the statement that follows. Natively a no-op.
+func PreemptAtGo(on bool) {}
+
 // RaceReports (intrinsic): data races the symbolic executor saw on this path between accesses in the code
 // under test (happens-before detection over its scheduler); natively nil - a reported race is confirmed by
 // running the same harness under `go test -race`.
